@@ -19,7 +19,11 @@ import (
 type Ev struct {
 	Ts int64 `json:"t"`
 	Id int   `json:"i"`
+	A  bool  `json:"a,omitempty"` // class letter 'a' in the message: accepted by the WHERE of filtered queries
 }
+
+// WhereA is the WHERE clause accepting exactly the events of class a
+const WhereA = `WHERE msg CONTAINS "a;"`
 
 // PartSpec is one partition: its tags and the intended chunk layout
 type PartSpec struct {
@@ -43,8 +47,12 @@ type PartLayout struct {
 const storeMaxChunk = 3000
 const bigPad = 3100
 
-func msgOf(id int, big bool) string {
-	s := fmt.Sprintf("m%d;", id)
+func msgOf(id int, a, big bool) string {
+	cl := "b"
+	if a {
+		cl = "a"
+	}
+	s := fmt.Sprintf("m%d%s;", id, cl)
 	if big {
 		s += strings.Repeat("x", bigPad)
 	}
@@ -54,11 +62,11 @@ func msgOf(id int, big bool) string {
 // idOf maps a returned message back to the event id (-1: not a message of the store)
 func idOf(msg string) int {
 	i := strings.IndexByte(msg, ';')
-	if i < 2 || msg[0] != 'm' {
+	if i < 3 || msg[0] != 'm' || (msg[i-1] != 'a' && msg[i-1] != 'b') {
 		return -1
 	}
 	n := 0
-	for _, c := range msg[1:i] {
+	for _, c := range msg[1 : i-1] {
 		if c < '0' || c > '9' {
 			return -1
 		}
@@ -85,7 +93,7 @@ func buildStore(srv *Server, parts []PartSpec) ([]PartLayout, error) {
 		for ci, ch := range p.Chunks {
 			for ei, e := range ch {
 				big := ei == len(ch)-1 && ci < len(p.Chunks)-1
-				evs = append(evs, &api.LogEvent{Timestamp: e.Ts, Message: msgOf(e.Id, big)})
+				evs = append(evs, &api.LogEvent{Timestamp: e.Ts, Message: msgOf(e.Id, e.A, big)})
 				res[pi].Evs = append(res[pi].Evs, e)
 			}
 		}
